@@ -223,7 +223,9 @@ func checkParsedURL(s *SchemaSpec, spec *URLSpec, u *jsonapi.URL) (string, strin
 
 func (m c07) run(c *Ctx, s *SchemaSpec, schema *jsonapi.Schema, spec *URLSpec) {
 	raw := spec.Raw()
-	desc := func() string { return fmt.Sprintf("raw %q (spec %s) schema %s", raw, clip(jsonStr(spec), 1200), clip(jsonStr(s), 1500)) }
+	desc := func() string {
+		return fmt.Sprintf("raw %q (spec %s) schema %s", raw, clip(jsonStr(spec), 1200), clip(jsonStr(s), 1500))
+	}
 	if spec.Corrupt != "" {
 		c.Count("corrupt")
 	}
